@@ -96,6 +96,10 @@ class HtmlHarness:
         for c in cells:
             if not in_domain(c):
                 return SKIP
+        if self.p.get("alphabet"):
+            for c in cells:
+                if not docs.in_alphabet(c, self.p["alphabet"]):
+                    return SKIP
         for i, k in enumerate(self.p.get("classes") or []):
             if not docs.in_class(cells[i], k):
                 return SKIP
